@@ -174,6 +174,7 @@ def scan():
     src_root = os.path.join(vlib.REPO, "src")
     users, divs, formats, comp_funcs, calls, func_file = set(), {}, {}, set(), {}, {}
     eof_sites, iff_files = {}, set()
+    var_reads = {}
     for root, dirs, files in os.walk(src_root):
         dirs.sort()
         rel_root = os.path.relpath(root, src_root)
@@ -202,6 +203,11 @@ def scan():
                     for em in re.finditer(r"\bhio_eof\s*\(", body):
                         kind = classify_eof_site(body, em.start())
                         eof_sites[(rel, name, kind)] = eof_sites.get((rel, name, kind), 0) + 1
+                if in_loaders:
+                    for rm in re.finditer(r"\bhio_read\s*\(", body):
+                        args, _ = split_args(body[rm.end():])
+                        if len(args) == 4 and not is_constant_offset(args[1]):
+                            var_reads[(rel, name)] = var_reads.get((rel, name), 0) + 1
                 if in_loaders and re.search(r"\blibxmp_iff_load\s*\(", body):
                     iff_files.add(rel)
                 if rel.startswith("depackers"):
@@ -253,7 +259,7 @@ def scan():
                 comp_names.add(name)
                 changed = True
     comp_files = {rel for (rel, name) in calls if name in comp_names}
-    return users, divs, formats, sorted(comp_files), eof_sites, sorted(iff_files)
+    return users, divs, formats, sorted(comp_files), eof_sites, sorted(iff_files), var_reads
 
 
 def lean_str(s):
@@ -261,7 +267,7 @@ def lean_str(s):
 
 
 def generate():
-    users, divs, formats, comp_files, eof_sites, iff_files = scan()
+    users, divs, formats, comp_files, eof_sites, iff_files, var_reads = scan()
     users = sorted(users)
     div_items = sorted(divs.items())
     L = []
@@ -349,6 +355,41 @@ def generate():
     L.append("/-- no loader consults `hio_eof` right after a read whose result it does not test (divergence D3) -/")
     L.append("theorem eofSites_no_untested : eofSites.all (fun e => e.use != .afterUntestedRead) = true := by decide")
     L.append("")
+    L.append("structure ReadSite where")
+    L.append("  file : String")
+    L.append("  func : String")
+    L.append("  count : Nat")
+    L.append("  deriving DecidableEq, Repr")
+    L.append("")
+    L.append("/-- every `hio_read(buf, SIZE, COUNT, f)` in src/loaders whose item SIZE is not a literal / sizeof / macro")
+    L.append("constant, i.e. can be 0 at run time.  A read of items of size 0 is divergence D4: stdio records error -2,")
+    L.append("which a later successful seek does not clear, memory and callbacks record EOF, which it clears.  The safe")
+    L.append("form is a constant size (normally 1) and a variable COUNT. -/")
+    L.append("def varSizeReads : List ReadSite := [")
+    L.append(",\n".join("  { file := %s, func := %s, count := %d }" % (lean_str(f), lean_str(fn), c)
+                        for ((f, fn), c) in sorted(var_reads.items())))
+    L.append("]")
+    L.append("")
+    L.append("/-- the reviewed ones (file, function, at most so many); a new variable-size read anywhere else breaks")
+    L.append("`readSites_item_size_known`.  far_load / mod_load: size is rows*64 resp. 64*4*channels with both factors")
+    L.append("checked >= 1; xm_load: the result is tested at once (`!= 1` fails identically everywhere); the ProWizard")
+    L.append("depackers copy tables / sample data whose size 0 is skipped or followed by no error test.")
+    L.append("(dt_load.c get_d_t_ used to read the title as ONE item of name_len bytes: with an empty name that was")
+    L.append("finding `entry:dt:load-rc`, repaired; it is no longer in the table.) -/")
+    L.append("def allowedVarSizeReads : List (String × String × Nat) := [")
+    L.append("  (\"loaders/far_load.c\", \"far_load\", 1),")
+    L.append("  (\"loaders/mod_load.c\", \"mod_load\", 1),")
+    L.append("  (\"loaders/xm_load.c\", \"xm_load\", 1),")
+    L.append("  (\"loaders/prowizard/p61a.c\", \"depack_p61a\", 1),")
+    L.append("  (\"loaders/prowizard/pm10c.c\", \"depack_p10c\", 1),")
+    L.append("  (\"loaders/prowizard/pm18a.c\", \"depack_p18a\", 1),")
+    L.append("  (\"loaders/prowizard/pp21.c\", \"depack_pp21_pp30\", 1),")
+    L.append("  (\"loaders/prowizard/theplayer.c\", \"theplayer_depack\", 1)]")
+    L.append("")
+    L.append("theorem readSites_item_size_known :")
+    L.append("    varSizeReads.all (fun r => allowedVarSizeReads.any fun (f, fn, n) => f == r.file && fn == r.func && r.count ≤ n) = true := by")
+    L.append("  decide")
+    L.append("")
     L.append("inductive DivKind where")
     L.append("  | eofCall | read8sCall | dataSeekCur | dataSeekSet | dataSeekEnd")
     L.append("  deriving DecidableEq, Repr")
@@ -391,6 +432,8 @@ def generate():
         "companion_files": comp_files,
         "eof_sites": [dict(file=f, func=fn, use=k, count=c) for ((f, fn, k), c) in sorted(eof_sites.items())],
         "iff_files": iff_files,
+        "var_size_reads": [dict(file=f, func=fn, count=c) for ((f, fn), c) in sorted(var_reads.items())],
+        "var_size_read_files": sorted({f for (f, _) in var_reads}),
     }
 
 
@@ -403,4 +446,5 @@ if __name__ == "__main__":
     print("companion files:", r["companion_files"])
     print("eof sites:", r["eof_sites"])
     print("iff files:", r["iff_files"])
+    print("variable-size reads:", r["var_size_reads"])
     print("formats: %d" % len(r["formats"]))
